@@ -68,7 +68,9 @@ isal_sm3_ctx_mgr_submit(ISAL_SM3_HASH_CTX_MGR *mgr, ISAL_SM3_HASH_CTX *ctx_in,
         *ctx_out = cp;
 
 #ifdef SAFE_PARAM
-        if (cp != NULL && cp->error != ISAL_HASH_CTX_ERROR_NONE) {
+        /* Only a rejected submit hands ctx_in straight back with its error set; any other
+         * context returned here may still carry the code of an earlier rejection. */
+        if (cp == ctx_in && cp->error != ISAL_HASH_CTX_ERROR_NONE) {
                 if (cp->error == ISAL_HASH_CTX_ERROR_INVALID_FLAGS)
                         return ISAL_CRYPTO_ERR_INVALID_FLAGS;
                 if (cp->error == ISAL_HASH_CTX_ERROR_ALREADY_PROCESSING)
